@@ -22,7 +22,6 @@ NOT_APPLICABLE = {
     "C01": "not built yet (Engine S, see DESIGN.md section 5)",
     "C02": "not built yet (Engine S, see DESIGN.md section 5)",
     "C07": "not built yet",
-    "C08": "not built yet",
     "C09": "not built yet",
     "C10": "harnesses under construction (not yet registered)",
     "C12": "harnesses under construction (not yet registered)",
@@ -105,6 +104,12 @@ PROPS = {
         "Bounded model checking of the real Serialize/Deserialize impls against an in-harness serde data-model back end (token recorder, "
         "self-describing and compact): round trip bit for bit, shape of Alpha / hue / metadata, missing alpha => opaque, helper forms.",
         "Trusted: Kani/CBMC/cadical; the in-harness serde back end. The JSON/RON text layer is outside the claim."),
+    "C08": sprop(
+        "Symbolic execution of the real Blend / Compose / Premultiply code (PreAlpha, Alpha and opaque forms, LinSrgb) and an "
+        "independent transcription of the W3C Compositing and Blending formulas in the same term arena; z3 decides for ALL colours and "
+        "alphas in [0,1] that every component equals the W3C value (1e-9), stays in range, that opaque inputs reduce to B(Cb,Cs), "
+        "that the commutative modes/operators are symmetric, the over identities, and the premultiplication round trip.",
+        "Trusted: z3; the W3C transcription (symx/src/reference/w3c_blend.rs). Rounding of individual float operations is outside the claim."),
     "C14": sprop(
         "Symbolic execution of the real RGB<->XYZ, XYZ->Lab/Luv/Oklab and chromatic-adaptation code for every RGB standard / white point "
         "pair; z3 decides, for ALL greys / colours in the stated boxes, that white maps to the white point, neutrals stay neutral, the "
